@@ -71,6 +71,7 @@ def common_items():
         RawFile("prelude/fm_types.rs"),
         RawFile("prelude/fm_specs.rs"),
         RawFile("prelude/skel.rs"),
+        RawFile("prelude/lines.rs"),
         RawFile("prelude/fm_stmt_types.rs"),
         Raw(open(os.path.join(os.path.dirname(os.path.dirname(os.path.abspath(__file__))), "prelude/traits.rs")).read().replace("//@@VNODE_IMPLS@@", vnode_impls([
             ("Expression", "NodeKey::Other(other_key(*self))", ""), ("BinOp", "NodeKey::Other(other_key(*self))", ""),
@@ -94,8 +95,8 @@ impl vstd::std_specs::cmp::PartialEqSpecImpl for CallParenType {
 """),
         Item(CTX, "struct", "Context"),
         Fn(CTX, "config", impl_of="Context", mode="stub", contract="ensures r == self.config,"),
-        Fn(CTX, "create_indent_trivia", mode="stub"),
-        Fn(CTX, "create_newline_trivia", mode="stub"),
+        Fn(CTX, "create_indent_trivia", mode="stub", contract="ensures is_indent_tok(r),"),
+        Fn(CTX, "create_newline_trivia", mode="stub", contract="ensures is_newline_tok(r),"),
         Item(SH, "struct", "Indent"), Item(SH, "struct", "Shape"),
         *shape_stubs(), SHAPE_ADD,
         Item(TRV, "enum", "FormatTriviaType", keep_derives=()),
